@@ -123,6 +123,112 @@ CLAIMS["C12"] = (
     TECH + " with exceptions as first-class outcomes and a ghost call trace; bounded fault-injection stand-in",
 )
 
+BOUNDED_TECH = "bounded contract check (exhaustive small scope, real code, oracle from the statement) as the labelled stand-in"
+
+CLAIMS["C03"] = (
+    "other",
+    "Bounded stand-in only (never counted as proved): all strings of length <= 5 (thorough: more) over {a, b, space, newline, a double-width and a zero-width character} x widths x 4 wrap modes "
+    "x 3 alignments x 3 encodings x str/bytes are laid out and rendered by the real code; the oracle (written from the statement) checks: every character shown once and in order, hidden "
+    "characters only of the permitted kinds, every rendered row fits the width, maximal fill in 'any' mode, breaks only at spaces in 'space' mode when every word fits, row count = rendered lines, no exception.",
+    "No deductive obligations for text_layout.py yet (string/segment-list code: generators over heterogeneous tuples; planned, see DESIGN §6 C03). One known finding (space wrap next to a double-width character).",
+    "§6 C03",
+    BOUNDED_TECH,
+)
+CLAIMS["C04"] = (
+    "other",
+    "Bounded stand-in only: the bytes the real raw display writes for frame histories of <= 3 small canvases (wide characters, DEC characters, attribute runs incl. undefined names and AttrSpec, cursor or none), "
+    "interleaved with clear() and resizes, at 5 colour depths, are interpreted by an independent reference terminal (spec/term_state.py + spec/sgr.py, written from ECMA-48/xterm, not from urwid) and "
+    "compared cell-for-cell (text + attributes), cursor, never-scrolled, incremental == full repaint; HtmlGenerator text and cursor span.",
+    "No postcondition of draw_screen within the deductive back end's reach expresses 'a terminal interpreting these bytes shows this canvas' (DESIGN §6 C04): bounded only, level 'other'. The reference interpreter is part of the oracle (trusted). "
+    "Three known findings on control characters in canvas text (C0 in UTF-8, DEL in 8-bit encodings, C1).",
+    "§6 C04",
+    BOUNDED_TECH + " against a reference terminal interpreter",
+)
+CLAIMS["C06"] = (
+    "other",
+    "Proved (path-sensitive effect obligations generated from the real ASTs, one per public mutator and path): for 31 bundled widget classes, every normal-exit path of a public method / property setter "
+    "that writes an attribute read (transitively) by render/rows/pack/get_cursor_coords also invalidates the cached canvases (directly or through a callee whose contract says so). "
+    "The two-run statement itself (cached rendering == fresh rendering after any history) is decided by the bounded stand-in: widget trees of depth <= 3, histories of <= 4 steps of renders at several sizes/focus, "
+    "public mutators, contents edits, focus changes, walker edits, scroll positions, gc.",
+    "The effect analysis is a static obligation on the AST (backend 'ast-paths'), not an SMT proof of cache coherence; CanvasCache.store/fetch/invalidate themselves are not under contract yet; GC lifetime is exercised, not proved.",
+    "§6 C06",
+    TECH.replace("discharged by z3/cvc5", "path-sensitive invalidate-on-write effect obligations") + "; " + BOUNDED_TECH,
+)
+CLAIMS["C15"] = (
+    "other",
+    "Proved for all integers on the real code: TermCanvas.constrain_coords / set_term_cursor / move_cursor keep the cursor inside the grid (and inside the scrolling region where asked) for every argument incl. huge and negative ones; get_utf8_len. "
+    "Bounded stand-in: addstr on all byte strings of length <= 3 over 24 representative bytes at three sizes with resizes between chunks and arbitrary chunking, CSI sequences with parameters from {missing, 0, 1, size, size+1, 10^9}: "
+    "no exception, grid-shape invariant, well-formed replies; faithfulness on the statement's subset against an independent VT100 reference interpreter (spec/vt100.py) on generated command sequences; scroll-back order.",
+    "Parser (parse_csi / dispatch through a dict of lambdas) is outside the deductive subset: bounded only. Grid operations other than cursor arithmetic: being brought under contract (DESIGN §6 C15).",
+    "§6 C15",
+    TECH + " for the cursor arithmetic; " + BOUNDED_TECH,
+)
+CLAIMS["C17"] = (
+    "other",
+    "Proved: the run-length kernel the attribute lists live in (rle_len, rle_get_at, rle_append_modify, rle_prepend_modify against the expansion view) and AttrMap.render (focus_map used iff focus and a focus map is set; "
+    "the child is rendered once at the same size/focus; the map is applied to its canvas). Bounded stand-in: markup nestings of depth <= 3 over texts with multi-byte characters x widths x wrap x align: every cell carries the innermost "
+    "enclosing tag, padding cells none; AttrMap/AttrWrap chains; palettes with alias/mono/high entries at five depths: the SGR bytes written decode (independent SGR decoder) to the palette entry's colours and styles.",
+    "decompose_tagmarkup, apply_text_layout attribute ranges, _attrspec_to_escape: bounded only so far.",
+    "§6 C17",
+    TECH + " for the run-length kernel and AttrMap; " + BOUNDED_TECH,
+)
+
+CLAIMS["C01"] = (
+    "other",
+    "Proved (children abstract): Padding.render / Filler.render return a canvas of exactly the requested columns and rows and Padding.rows equals the rows rendered; Frame.render, BoxAdapter.render, Overlay.render sizes; "
+    "Pile.get_item_rows: own rows for given/packed children and exact fill for weighted ones (the rows rendered); AttrMap.render keeps the child's size. "
+    "The statement itself (every bundled widget, every valid size and focus flag: render succeeds, rectangular, sized per mode against the widget's own rows()/pack(), cursor inside) is decided by the bounded stand-in: "
+    "all widget trees of depth <= 2 (sampled depth 3) over every bundled leaf, decoration and container class with the option combinations of the quantifier, texts incl. wide / zero-width / DEC characters, three encodings, sizes 1..6 x 1..4.",
+    "Bounded for the statement as a whole; the proved part covers the container classes named. Seven known findings (LineBox around a fixed-only child, zero-width packed column in fixed Columns, Filler leaving 0 rows for a ListBox, ScrollBar not wider than its bar, "
+    "fixed Pile of zero width, SO/SI bytes counted as columns, attribute run splitting a double-byte character).",
+    "§6 C01",
+    TECH + " for the container size lemmas; " + BOUNDED_TECH,
+)
+CLAIMS["C02"] = (
+    "other",
+    "Proved: the run-length kernel (rle_len, rle_get_at, rle_append_modify, rle_prepend_modify against the expansion view) and calc_trim_text (slice width + pads == requested range; pads iff a wide character straddles that edge). "
+    "The cell-for-cell statement is decided by the bounded stand-in: an independent grid model (spec/grid.py) of combine / join / overlay / pad / trim / fill_attr_apply / wrap; all expression trees of depth <= 2 (sampled deeper) over leaf canvases <= 4x3 "
+    "with wide and zero-width characters, 2-run attribute lists, cursors and pop-ups, all defined offsets: content, size, coordinates, operands unchanged, content_delta reproduces the new rows; the size/cursor facts the other properties' proofs assume of canvases (canvas protocol) are checked here.",
+    "The shard algebra (shard_body / shard_body_tail: iterator-driven generators over nested heterogeneous tuples) is outside the deductive subset: bounded only. One known finding (a CompositeCanvas trimmed to zero rows forgets its width).",
+    "§6 C02",
+    TECH + " for the run-length kernel; " + BOUNDED_TECH + " against a grid model",
+)
+CLAIMS["C05"] = (
+    "other",
+    "Bounded stand-in: every table sequence, X10/SGR mouse and cursor reports, UTF-8 / double-byte characters, garbage <= 3 bytes, every 1- and 2-cut split with the timeout fired or not, three encodings, through a real Screen on a pipe, "
+    "against an independent reference decoder. (Deductive contracts for the decoder functions are being merged: see evidence functions_under_contract.)",
+    "Bounded: see evidence 'bound'.",
+    "§6 C05",
+    BOUNDED_TECH + " against an independent reference decoder",
+)
+CLAIMS["C07"] = (
+    "other",
+    "Proved: the list walkers' focus handling (SimpleListWalker._modified clamps the focus into range and emits 'modified' once; set_focus accepts exactly the valid positions). "
+    "The statement (gap-free window containing the focus, blank rows only where allowed, cursor visible, no exception) is decided by the bounded stand-in: lists of 0..4 flow widgets with heights {0,1,3,taller than the box}, selectable or not, Edit cursors; "
+    "boxes of 1..5 rows; all sequences of <= 2 (sampled 3-4) operations from keys, mouse, set_focus with coming_from, set_focus_valign, resize, walker insert/delete/replace; three walker classes.",
+    "ListBox.calculate_visible / page up / page down (190-line procedures) are not under deductive contract: bounded only.",
+    "§6 C07",
+    TECH + " for the walkers; " + BOUNDED_TECH,
+)
+CLAIMS["C08"] = (
+    "other",
+    "Proved (children abstract, per operation, so by induction after any history): Pile and Columns: focus_position is a valid index or IndexError with nothing written, focus is the child at that index, _contents_modified recomputes selectability and invalidates, "
+    "keypress offers the key to the focus child only, returns an unconsumed non-navigation key unchanged and moves the focus to the nearest selectable child in the arrow's direction or nowhere (loop invariant); Frame: focus_position in the parts that exist, keypress/mouse routing; "
+    "Overlay: focus_position is 1; Filler/Padding/BoxAdapter keypress delegation; SimpleListWalker.set_focus. Bounded stand-in on real nestings (all container classes, depth <= 3, key/click/assignment/contents-edit sequences): focus valid, invalid positions rejected, "
+    "keys and focused rendering reach focus-path widgets only, unhandled keys come back, selectable() after edits, get/set_focus_path round trip.",
+    "GridFlow and ListBox focus: bounded only. Four known findings (wrong-typed position raises TypeError, ListBox completes a focus change inside the item, empty GridFlow's divider lacks cursor methods, Columns of a zero-row Pile).",
+    "§6 C08",
+    TECH + " (per-operation invariants); " + BOUNDED_TECH,
+)
+CLAIMS["C10"] = (
+    "other",
+    "Bounded stand-in only: texts <= 6 characters over {a, wide, zero-width, newline, space} x captions x widths 1..6 x wrap x align x multiline/allow_tab/mask x key sequences (printables, left/right/up/down/home/end, backspace, delete, enter, tab, clicks) "
+    "compared with an independent reference editor driven by a reference layout: text and cursor offset, cursor cell = cell of the character at the offset, return values, change signals, numeric alphabets.",
+    "No deductive obligations for Edit yet (string-heavy code; planned single-step contracts, DESIGN §6 C10). Two known findings (rows of zero-width characters only; negative defaults with allow_negative=False).",
+    "§6 C10",
+    BOUNDED_TECH + " against a reference editor",
+)
+
 PENDING = "contracts for this property are not built yet in this commit (see DESIGN.md §6 for the plan); no check is claimed"
 
 
